@@ -55,6 +55,21 @@ ARRS = [
 ]
 
 
+# rarely met shapes: long strings (ASCII, 2-byte, 4-byte characters), long arrays, numbers at the integer-conversion and
+# exponent boundaries, subnormals
+LONGS = [
+    s("ab" * 200), s("é" * 150), s("🎸x" * 60), s("a," * 300), s("1" * 40), s("9" * 400), s("0." + "3" * 60), s(" " * 70 + "7"),
+    s("x" * 1023), s("x" * 1024), s("x" * 1025),
+    arr([num(float(i)) for i in range(120)]), arr([s("w%d" % i) for i in range(90)]),
+    arr([num(1.0)], [(s("k%d" % i), num(float(i))) for i in range(40)]),
+    arr([arr([arr([arr([arr([num(1.0)])])])])]),
+    num(2.0 ** 63), num(-(2.0 ** 63)), num(2.0 ** 64), num(2.0 ** 64 - 2048), num(2.0 ** 53 + 2), num(2.0 ** 52 + 0.5), num(2.0 ** 31), num(2.0 ** 32 - 1),
+    num(1.7976931348623157e308), num(2.2250738585072014e-308), num(2.225073858507201e-308), num(1e-320), num(-5e-324),
+    num(0.1 + 0.2), num(1e15), num(1e16), num(123456789.125), num(1e22), num(1e23), num(0.3), num(100.0), num(1e-5), num(1e-7),
+]
+PARTNERS = [U, NUL, T, F, num(0.0), num(1.0), num(-2.5), s(""), s("a"), s("1"), arr(), arr([num(1.0)])]
+
+
 def universe(small=False):
     nums = NUMS[:12] if small else NUMS
     strs = STRS[:12] if small else STRS
